@@ -10,7 +10,13 @@
    parameters of the hook machine; [model] instantiates them with the four SDK
    samplers the harness installs and with the W3C traceparent parser
    (propagation.TraceContext.Extract), both written out below and validated
-   against the real SDK by the correspondence check. *)
+   against the real SDK by the correspondence check.
+
+   The dispatch context the server hands to OnDispatchStart may already be
+   inside a span (Server.ServeWithContext with a session span, an HTTP
+   middleware that opened its own span in r.Context()): this AMBIENT span
+   context is an input of every dispatch.  Propagator.Extract replaces it by the
+   caller's traceparent when a valid one was sent and leaves it alone otherwise. *)
 From VR Require Export Lib.Strs Gen.Consts.
 Open Scope N_scope.
 
@@ -53,7 +59,8 @@ Definition tp00 (tr sp fl : bytes) : bytes :=
 (* ---- the telemetry backend as seen by the hook --------------------------- *)
 Inductive stcode := SUnset | SError | SOk.
 (* parent as observed: trace id, span id, child is in the parent's trace *)
-Record opar := { op_trace : bytes; op_span : bytes; op_same : bool }.
+Record opar := { op_trace : bytes; op_span : bytes; op_same : bool;
+                 op_remote : bool; op_tstate : bytes (* TraceState().String() *) }.
 
 Inductive bev :=
 | BStart (sid : nat) (recording : bool) (name : bytes) (server_kind : bool) (parent : option opar)
@@ -68,7 +75,15 @@ Record cfg := { g_tracing : bool; g_metrics : bool; g_recexc : bool; g_propagate
                 g_sampler : sampler_kind }.
 
 (* DispatchInfo as far as the hook reads it *)
-Record info := { n_method : bytes; n_mtype : bytes; n_tp : bytes (* TransportMetadata traceparent, empty = absent *) }.
+(* a span context as the tracer sees it (trace.SpanContext, valid ones only) *)
+Record sctx := { x_trace : bytes; x_span : bytes; x_sampled : bool; x_remote : bool; x_tstate : bytes }.
+
+(* what OnDispatchStart / OnDispatchEnd read: the span context already current in the
+   dispatch ctx (None = bare / invalid) and the DispatchInfo fields *)
+Record info := { n_method : bytes; n_mtype : bytes;
+                 n_tp : bytes;           (* TransportMetadata traceparent, empty = absent *)
+                 n_ts : bytes;           (* TransportMetadata tracestate as trace.ParseTraceState normalises it *)
+                 n_amb : option sctx }.  (* trace.SpanContextFromContext(ctx) when valid *)
 
 (* spanToken: the span (canonical id, parent) when tracing is on *)
 Record token := { tk_span : option (nat * option opar) }.
@@ -76,11 +91,15 @@ Record token := { tk_span : option (nat * option opar) }.
 (* SDK-side state: next span id; ids of spans that are recording (started, not ended) *)
 Record sdk := { s_next : nat; s_live : list nat }.
 
-Definition opar_of (p : pctx) : opar := {| op_trace := p_trace p; op_span := p_span p; op_same := true |}.
+Definition opar_of (p : sctx) : opar :=
+  {| op_trace := x_trace p; op_span := x_span p; op_same := true; op_remote := x_remote p; op_tstate := x_tstate p |}.
+(* the remote span context a valid traceparent + tracestate denotes *)
+Definition remote_of (ts : bytes) (p : pctx) : sctx :=
+  {| x_trace := p_trace p; x_span := p_span p; x_sampled := p_sampled p; x_remote := true; x_tstate := ts |}.
 
 Section Hook.
-  Variable extract : bytes -> option pctx.        (* cfg.Propagator.Extract on the carrier *)
-  Variable sampler : option pctx -> bool.         (* SDK: does tracer.Start return a recording span *)
+  Variable extract : bytes -> bytes -> option sctx.  (* cfg.Propagator.Extract on the carrier (traceparent, tracestate) *)
+  Variable sampler : option sctx -> bool.           (* SDK: does tracer.Start return a recording span *)
   Variable c : cfg.
 
   Definition span_name (i : info) : bytes := str "vgi_rpc/" ++ n_method i.
@@ -89,7 +108,8 @@ Section Hook.
   Definition hook_start (s : sdk) (i : info) : sdk * token * list bev :=
     if negb (g_tracing c) then (s, {| tk_span := None |}, [])
     else
-      let par := extract (n_tp i) in
+      (* Extract overrides the ambient span context only when it finds a valid one *)
+      let par := match extract (n_tp i) (n_ts i) with Some p => Some p | None => n_amb i end in
       let opr := option_map opar_of par in
       let sid := s_next s in
       let recd := sampler par in
@@ -128,16 +148,16 @@ Section Hook.
     let (s', sp) := end_span s t err in (s', sp ++ end_metrics i err).
 End Hook.
 
-Definition sampler_fn (k : sampler_kind) (par : option pctx) : bool :=
+Definition sampler_fn (k : sampler_kind) (par : option sctx) : bool :=
   match k, par with
   | SAlways, _ => true
   | SNever, _ => false
   | SParentAlways, None => true
   | SParentNever, None => false
-  | (SParentAlways | SParentNever), Some p => p_sampled p
+  | (SParentAlways | SParentNever), Some p => x_sampled p
   end.
-Definition extract_fn (propagate : bool) (h : bytes) : option pctx :=
-  if propagate then parse_tp h else None.
+Definition extract_fn (propagate : bool) (h ts : bytes) : option sctx :=
+  if propagate then option_map (remote_of ts) (parse_tp h) else None.
 
 (* ---- the dispatch layer: calls and what they report to the hook ---------- *)
 Inductive mkind := KUnary | KProd | KExch | KUnknown.
@@ -149,6 +169,8 @@ Record call := {
   c_http : bool; c_kind : mkind;
   c_tp_meta : bytes;           (* traceparent in the request's IPC custom metadata *)
   c_tp_hdr : bytes;            (* Traceparent HTTP header *)
+  c_tstate : bytes;            (* tracestate sent next to every traceparent, normalised (oracle: trace.ParseTraceState) *)
+  c_amb : option sctx;         (* span context already current in the context the server is served with *)
   c_badparams : bool;
   c_init : outcome;            (* what the (init) handler does *)
   c_turns : list tact;         (* Produce / Exchange script *)
@@ -230,10 +252,12 @@ Definition call_err (cl : call) : option bytes :=
 Definition call_tp (cl : call) : bytes :=
   if c_http cl && negb (is_nil (c_tp_hdr cl)) then c_tp_hdr cl else c_tp_meta cl.
 Definition call_info (cl : call) : info :=
-  {| n_method := meth_name (c_kind cl); n_mtype := mtype_name (c_kind cl); n_tp := call_tp cl |}.
+  {| n_method := meth_name (c_kind cl); n_mtype := mtype_name (c_kind cl); n_tp := call_tp cl;
+     n_ts := if is_nil (call_tp cl) then [] else c_tstate cl; n_amb := c_amb cl |}.
 (* HTTP exchange continuation: only the HTTP headers reach TransportMetadata *)
 Definition cont_info (cl : call) : info :=
-  {| n_method := meth_name KExch; n_mtype := str "stream"; n_tp := c_tp_hdr cl |}.
+  {| n_method := meth_name KExch; n_mtype := str "stream"; n_tp := c_tp_hdr cl;
+     n_ts := if is_nil (c_tp_hdr cl) then [] else c_tstate cl; n_amb := c_amb cl |}.
 
 Definition reaches_hook (cl : call) : bool := match c_kind cl with KUnknown => false | _ => true end.
 (* the handler gate sits at the top of the unary / init handler *)
@@ -285,8 +309,8 @@ Fixpoint ended_of (evs : list bev) : list nat :=
   end.
 
 Section Run.
-  Variable extract : bytes -> option pctx.
-  Variable sampler : option pctx -> bool.
+  Variable extract : bytes -> bytes -> option sctx.
+  Variable sampler : option sctx -> bool.
   Variable c : cfg.
   Variable calls : list call.
 
@@ -346,7 +370,8 @@ Definition model (i : input) : obs :=
 Definition stcode_eqb (a b : stcode) : bool :=
   match a, b with SUnset, SUnset | SError, SError | SOk, SOk => true | _, _ => false end.
 Definition opar_eqb (a b : opar) : bool :=
-  beqb (op_trace a) (op_trace b) && beqb (op_span a) (op_span b) && Bool.eqb (op_same a) (op_same b).
+  beqb (op_trace a) (op_trace b) && beqb (op_span a) (op_span b) && Bool.eqb (op_same a) (op_same b)
+  && Bool.eqb (op_remote a) (op_remote b) && beqb (op_tstate a) (op_tstate b).
 Definition bev_eqb (a b : bev) : bool :=
   match a, b with
   | BStart s1 r1 n1 k1 p1, BStart s2 r2 n2 k2 p2 =>
@@ -404,8 +429,16 @@ Fixpoint none_running (seen : list nat) (tbl : list (nat * bool)) : bool :=
   | (k, r) :: t => (existsb (Nat.eqb k) seen || negb r) && none_running (k :: seen) t
   end.
 
+(* the parent the property demands: the caller's traceparent (remote, with its
+   tracestate) when a valid one was sent and propagation is on — whatever span is
+   already current in the dispatch context; otherwise that ambient span context;
+   otherwise none (a root span) *)
 Definition want_parent (g : cfg) (i : info) : option opar :=
-  option_map opar_of (extract_fn (g_propagate g) (n_tp i)).
+  match (if g_propagate g then parse_tp (n_tp i) else None) with
+  | Some p => Some {| op_trace := p_trace p; op_span := p_span p; op_same := true;
+                      op_remote := true; op_tstate := n_ts i |}
+  | None => option_map opar_of (n_amb i)
+  end.
 
 (* at most one span is started per segment: none if tracing is off or no dispatch starts;
    otherwise exactly one server span named after the method, parented on the caller's
